@@ -572,6 +572,14 @@ func verifAofCompactMode(args []string) {
 		case op == "waitrewrite":
 			settle()
 			_ = slock.aof.WaitRewriteAofFiles()
+		case strings.HasPrefix(op, "back:"):
+			// the manual clock starts N seconds BEHIND the wall clock, so that the `adv:` steps of this history never
+			// date a record in the future of a later restart (a restart runs on the wall clock; for a record dated in
+			// its future the loader re-arms the full term from its own clock, which two restarts a second apart do
+			// differently -- an artifact of a scripted clock, not of a compaction)
+			d0 := slock.GetOrNewDB(0)
+			d0.currentTime -= int64(verifAtoi(op[5:]))
+			d0.checkTimeoutTime, d0.checkExpriedTime = d0.currentTime, d0.currentTime
 		case strings.HasPrefix(op, "adv:"):
 			// the manual clock moves on between the requests and the compaction (HasLock compares deadlines)
 			settle()
